@@ -63,6 +63,16 @@
 (*                  the length l(c) = sum_i c_i d_i carried by its base-   *)
 (*                  1024 digits (linear in c), its SIGN decided exactly -  *)
 (*                  it changes between c1, c2 and a c1 + b c2              *)
+(*   GradDrop       (part of LawC08, PadLaw, WidenLaw, WideLaw) with a 0/1-  *)
+(*                  valued purity function, with and without leak: by value *)
+(*                  under column permutations, zero columns in any layout   *)
+(*                  and the wide presentation; the two candidates per       *)
+(*                  column of the randomised purity functions likewise      *)
+(*   NullLaw        (part of LawC09) axis-aligned exactly opposed rows and  *)
+(*                  the zero matrix: ConFIG's exact direction is null for   *)
+(*                  every positive row scaling (0 = a 0 + b 0)              *)
+(*   Defaults       documented default arguments of UPGrad may be written   *)
+(*                  or omitted (ArgForms): the same configuration           *)
 (*   Export         prints the scenario with the expected values and the   *)
 (*                  exact classification of the instance                   *)
 (* Further instance families of the same laws have their own modules:      *)
@@ -160,7 +170,12 @@ Curated == <<
   << <<-1, 2>>, <<0, 0>>, <<2, -1>>, <<-2, -1>> >>,
   << <<1, 2>>, <<-1, -2>>, <<2, -1>>, <<-2, 1>> >>,
   << <<2, 1>>, <<-2, -1>>, <<2, -1>>, <<1, 2>>, <<-1, -2>> >>,
-  << <<2, 1, -2>>, <<-2, -2, -1>>, <<0, 0, 3>>, <<2, -2, -1>>, <<-1, 2, 2>> >> >>
+  << <<2, 1, -2>>, <<-2, -2, -1>>, <<0, 0, 3>>, <<2, -2, -1>>, <<-1, 2, 2>> >>,
+  \* AXIS-ALIGNED rows (at most one non-zero entry per row) that are exactly opposed: the matrix of unit rows is a
+  \* sign matrix that no positive row scaling changes, and U^T 1 = 0 - ConFIG's exact direction is null for every c
+  \* (NullDir below; the second one also with its preference vector)
+  << <<0, 3, 0>>, <<0, -5, 0>> >>,
+  << <<0, 2>>, <<0, -7>>, <<0, 0>> >> >>
 
 CuratedBadlyConditioned == {26, 27, 28}       \* positions of the badly conditioned instances in Curated
 CuratedTall == 31..39                         \* positions of the tall equal-norm instances in Curated
@@ -179,7 +194,8 @@ GenJ(k, m) == LET n == (IF m = 5 THEN 5 ELSE 3) + (k % 2)     \* m = 5: n >= m s
 
 \* curated instance 15 (first row zero) carries ALL its preference weight on the zero-gradient row
 MkInst(id, k, Jm) == [id |-> id, m |-> Len(Jm), n |-> Len(Jm[1]), J |-> Jm,
-                      P |-> IF id = 15 THEN <<2, 0, 0>> ELSE ParamP(k, Len(Jm)), W |-> ParamW(k, Len(Jm))]
+                      P |-> IF id = 15 THEN <<2, 0, 0>> ELSE IF id = 41 THEN <<3, 3, 1>> ELSE ParamP(k, Len(Jm)),
+                      W |-> ParamW(k, Len(Jm))]
 
 Instances ==
     {MkInst(i, i, Curated[i]) : i \in {q \in 1..Len(Curated) : Len(Curated[q]) \in RowCounts}}
@@ -349,6 +365,10 @@ RQ == [i \in 1..N0 |-> [j \in 1..N |-> Frac(Q[i][j], den)]]
 TimesQ(x) == RVecMat(x, RQ, N)                      \* x Q for a rational row vector x of length n0
 
 KrumKs   == {k \in {1, 2, M - 1} : k >= 1 /\ k <= M}
+\* GradDrop: the deterministic purity functions (SymAgg!SymGDKeep) and the leak configurations (none, P / 4)
+GDFs     == {"ge", "gt"}
+GDCfgSeq == << <<"ge", FALSE>>, <<"ge", TRUE>>, <<"gt", FALSE>>, <<"gt", TRUE>> >>
+GDLeak(lk, p) == IF lk THEN p ELSE Zeros(Len(p))
 KrumCfgs == (0..(M - 3)) \X KrumKs
 TMCfgs   == 0..((M - 1) \div 2)
 
@@ -366,6 +386,11 @@ LawC08 ==
                     ~k0.amb => SymKrumValue(k0.sel, k, J, den, N)
                                  = TimesQ(SymKrumValue(k0.sel, k, Jp, 1, N0))
     /\ QIsColPerm => \A b \in TMCfgs : SymTM(b, J, den, N) = TimesQ(SymTM(b, Jp, 1, N0))
+    \* GradDrop with a 0/1-valued purity function is deterministic: by value; its two candidates per column (what a
+    \* randomised purity function can return there) move with the columns as well; with and without leak
+    /\ QIsColPerm => \A L \in {Zeros(M), P} :
+          /\ \A f \in GDFs : SymGDVal(f, L, J, den, N) = TimesQ(SymGDVal(f, L, Jp, 1, N0))
+          /\ \A ch \in {"pos", "neg"} : SymGDCand(ch, L, J, den, N) = TimesQ(SymGDCand(ch, L, Jp, 1, N0))
     \* ConFIG where it is exact (CfgOn, defined with LawC09 below): the direction turns with Q
     /\ (cls.colFull /\ cls.equalNorm /\ N = N0 /\ den = 1) =>
           \A w \in {Ones(M), P} : /\ SymConFIG(J, w).y = VecMat(SymConFIG(Jp, w).y, Q, N)
@@ -421,6 +446,8 @@ BaseVals == [mean |-> SymMean(J, den, N), sum |-> SymSum(J, den, N),
              cP |-> SymConstant(P, J, den, N), cW |-> SymConstant(W, J, den, N),
              tm |-> [b \in TMCfgs |-> SymTM(b, J, den, N)], tie |-> [b \in TMCfgs |-> SymTMTie(b, J, N)],
              G |-> Gram(J),
+             gd |-> [q \in 1..Len(GDCfgSeq) |-> SymGDVal(GDCfgSeq[q][1], GDLeak(GDCfgSeq[q][2], P), J, den, N)],
+             gdc |-> [pos |-> SymGDCand("pos", P, J, den, N), neg |-> SymGDCand("neg", P, J, den, N)],
              kr |-> [fk \in KrumCfgs |-> LET r == SymKrum(GNow, fk[1], fk[2]) IN      \* selection: a function of the Gramian
                                           [amb |-> r.amb, sel |-> r.sel,
                                            val |-> IF r.amb THEN <<>> ELSE SymKrumValue(r.sel, fk[2], J, den, N)]]]
@@ -435,6 +462,10 @@ Commutes(bv, X, d, g2, n, emb(_), newtie) ==
     /\ \A b \in TMCfgs : /\ SymTM(b, X, d, n) = emb(bv.tm[b])
                           /\ SymTMTie(b, X, n) = (bv.tie[b] \/ (b >= 1 /\ newtie))     \* a zero column is one big tie
     /\ \A fk \in KrumCfgs : ~bv.kr[fk].amb => SymKrumValue(bv.kr[fk].sel, fk[2], X, d, n) = emb(bv.kr[fk].val)
+    \* GradDrop works column by column: a zero column gets 0 (no entry to keep, nothing to leak), a repeated and
+    \* halved column half the value, every other column what it got before
+    /\ \A q \in 1..Len(GDCfgSeq) : SymGDVal(GDCfgSeq[q][1], GDLeak(GDCfgSeq[q][2], P), X, d, n) = emb(bv.gd[q])
+    /\ SymGDCand("pos", P, X, d, n) = emb(bv.gdc.pos) /\ SymGDCand("neg", P, X, d, n) = emb(bv.gdc.neg)
 
 \* Induction step of the zero-column clause: in EVERY reachable state (so after every word, including the
 \* states that already carry appended zero columns) inserting one more zero column at ANY position p keeps
@@ -539,7 +570,30 @@ CfgLaw(w) == LET r == SymConFIG(J, w) IN
     /\ (\A i \in 1..M : c1[i] = 1 /\ c2[i] = 1) => SymSignL(c1, r.d) = Sgn(SumSeq(r.d))
 LawConFIG == CfgOn => CfgLaw(Ones(M)) /\ CfgLaw(P)
 
+\* ConFIG's direction is pinv(U) w with U the matrix of unit rows.  When every row has at most one non-zero entry
+\* (axis-aligned), U = Sgn(J) entry by entry - a sign matrix, the same for diag(c) J with any positive c - and when
+\* U^T w = 0 the direction pinv(U) w = pinv(U^T U) U^T w is null: A(diag(c) J) = 0 for EVERY c and the identity of C09
+\* reads 0 = a 0 + b 0.  Whether the FLOATING-POINT direction is exactly null as well is decidable here only for the
+\* zero matrix (U = 0 and pinv(0) = 0 whatever the SVD routine does): there the three values are claimed to be exactly
+\* 0 in every dtype; on the other instances of this class the value depends on rounding inside the SVD (not claimed),
+\* but the three values must EXIST: A(diag(c) J) is quantified over all finite matrices, an exception is a violation.
+AxisAligned(X) == \A i \in 1..Len(X) : Cardinality({j \in 1..N : X[i][j] # 0}) <= 1
+SgnM(X) == [i \in 1..Len(X) |-> [j \in 1..N |-> Sgn(X[i][j])]]
+NullDir(w) == AxisAligned(J) /\ \A j \in 1..N : SumSeq([i \in 1..M |-> w[i] * Sgn(J[i][j])]) = 0
+ZeroMatrix == \A i \in 1..M : \A j \in 1..N : J[i][j] = 0
+NullLaw == /\ \A c \in {XC, c1, c2} : SgnM(RowScale(c, J)) = SgnM(J) /\ AxisAligned(RowScale(c, J)) = AxisAligned(J)
+           /\ ZeroMatrix => NullDir(Ones(M)) /\ NullDir(P)
+           /\ \A w \in {Ones(M), P} : (NullDir(w) /\ CfgOn) => SymConFIG(J, w).deg      \* agrees with the exact ConFIG model
+
+\* The documented defaults of the public constructor UPGrad(pref_vector=None, norm_eps=0.0001, reg_eps=0.0001): a
+\* configuration whose value equals the documented default may be WRITTEN in the constructor call or OMITTED - the
+\* same configuration, the same bound.  The replay builds the objects of the walk down the ladder with every such
+\* argument omitted and those of the walk up with all arguments written (ArgForms).
+Defaults == [norm_eps |-> "1e-4", reg_exp |-> 4]
+ArgForms == [down |-> "omitted", up |-> "written"]
+
 LawC09 ==
+    /\ NullLaw
     /\ LET A(X) == SymMean(X, den, N) IN Lin(A)
     /\ LET A(X) == SymSum(X, den, N) IN Lin(A)
     /\ LET A(X) == SymConstant(P, X, den, N) IN Lin(A)
@@ -644,11 +698,24 @@ Scenario ==
      cfg |-> IF CfgOn THEN [on |-> TRUE, ones |-> CfgData(Ones(M)), pref |-> CfgData(P)]
              ELSE [on |-> FALSE, ones |-> <<>>, pref |-> <<>>],
      colperm |-> QIsColPerm, cls |-> cls, prefDeg |-> PrefDeg, gd |-> GDiag,
+     nulldir |-> [ones |-> NullDir(Ones(M)), pref |-> NullDir(P), zero |-> ZeroMatrix],
+     defaults |-> Defaults, argforms |-> ArgForms,
+     gdrop |-> IF Mode = "cols" /\ QIsColPerm
+               THEN [on |-> TRUE,
+                     vals |-> [q \in 1..Len(GDCfgSeq) |->
+                                 [f |-> GDCfgSeq[q][1], leak |-> GDCfgSeq[q][2],
+                                  val |-> SymGDVal(GDCfgSeq[q][1], GDLeak(GDCfgSeq[q][2], P), J, den, N)]],
+                     cand |-> [q \in 1..2 |-> LET L == GDLeak(q = 2, P) IN
+                                 [leak |-> (q = 2), pos |-> SymGDCand("pos", L, J, den, N), neg |-> SymGDCand("neg", L, J, den, N)]],
+                     kind |-> [c \in 1..N |-> SymGDKind(J, c)]]
+               ELSE [on |-> FALSE, vals |-> <<>>, cand |-> <<>>, kind |-> <<>>],
      exp |-> ExpLinear(J, den), rob |-> ExpRobust,
      lin |-> IF Mode = "scale"
              THEN [x |-> ExpLinear(RowScale(XC, J), den), x1 |-> ExpLinear(RowScale(c1, J), den),
                    x2 |-> ExpLinear(RowScale(c2, J), den)]
              ELSE [x |-> <<>>, x1 |-> <<>>, x2 |-> <<>>]]
 
-Export == PrintT(<<"SCN", ToJson(Scenario)>>)
+\* the documented defaults are configurations of the ladder (first norm_eps configuration, one of the rungs)
+DefaultsOK == Defaults.norm_eps = NormEpsCfgs[1] /\ Defaults.reg_exp \in Range(RegExps)
+Export == DefaultsOK /\ PrintT(<<"SCN", ToJson(Scenario)>>)
 =============================================================================
